@@ -57,7 +57,7 @@ ASSUMPTIONS = [
     "sc3.base.clock logger",
 ]
 MIN_COUNTERS = {
-    'quick': {'chain_lookups_compared': 20000, 'scale_keys_compared': 5000,
+    'quick': {'chain_lookups_compared': 10000, 'scale_keys_compared': 3000,
               'play_s_new_checked': 5000, 'play_gate_off_checked': 2000,
               'play_no_gate_checked': 2000, 'play_control_values_checked': 10000,
               'tl_s_new_checked': 4000, 'tl_rests_silent': 300,
